@@ -25,3 +25,28 @@ package db
 //@   loop 0 invariant[C02] chbkt != nil ==> (forall a int, c int :: 0 <= a && a < c && c < len(chunks) ==> chunks[a].chunkOffset <= chunks[c].chunkOffset)
 //@   ensures[C02] err == nil ==> (forall k int :: 0 <= k && k < len(chunks) ==> chunks[k].chunkSize == (k + 1 < len(chunks) ? chunks[k+1].chunkOffset : size) - chunks[k].chunkOffset)
 //@   ensures[C02] err == nil && chbkt != nil ==> (forall a int, c int :: 0 <= a && a < c && c < len(chunks) ==> chunks[a].chunkOffset <= chunks[c].chunkOffset)
+
+// ---- C04: the DB-backed metadata reader opens untrusted blobs without crashing (same footer / TOC location logic as
+// estargz.Open: every offset and size comes from the blob's footer) ----
+// (decompressors handed over through options are configuration, assumed non-nil)
+//@ type metadata.Decompressor
+//@   nonnil
+//@ func interface metadata.Decompressor.FooterSize
+//@   modifies nothing
+//@   ensures result >= 0 && result < 1<<20
+//@ func interface metadata.Decompressor.ParseFooter
+//@   modifies nothing
+//@ func interface metadata.Decompressor.DecompressTOC
+//@   modifies nothing
+//@   ensures result1 == nil ==> result0 != nil
+//@ func maxFooterSize
+//@   props C04
+//@   loop 0 invariant 0 <= res && res <= max(blobSize, 0) && res < 1<<20
+//@   ensures[C04] 0 <= res && res <= max(blobSize, 0) && res < 1<<20
+//@ func decompressTOC
+//@   props C04
+//@   requires d != nil && sr != nil && (tocOff >= 0 ==> 0 <= tocSize && tocSize <= srSize(sr))
+//@ func NewReader
+//@   props C04
+//@   requires sr != nil
+//@   requires forall i int :: 0 <= i && i < len(opts) ==> opts[i] != nil
